@@ -410,6 +410,11 @@ func (rc *rewardsCreatorV2) computeTopUpRewards(totalToDistribute *big.Int, tota
 	topUpRewards, _ := big.NewFloat(0).Mul(big.NewFloat(res1), res2).Int(nil)
 	log.Debug("computeTopUpRewards", "topUpRewards", topUpRewards.String())
 
+	// the floating point evaluation above can round slightly above its mathematical limit k
+	if topUpRewards.Cmp(k) > 0 {
+		topUpRewards.Set(k)
+	}
+
 	return topUpRewards
 }
 
